@@ -38,6 +38,22 @@ PURE_METHODS = {"astimezone", "date", "replace", "utcoffset", "total_seconds", "
                 "fromisoformat", "today_", "lstrip", "rstrip", "encode", "decode", "radians",
                 "degrees", "sin", "cos", "tan", "asin", "acos", "atan2", "sqrt", "fabs", "hypot",
                 "floor", "ceil"}
+def _builtin_pure_methods():
+    """every public method of the built-in value types and of the stdlib value types astral uses,
+    minus the mutators of list/dict/set: calling one of them has no effect outside its receiver's
+    own (immutable) value"""
+    import datetime as _d
+    import re as _re
+    import zoneinfo as _z
+    names = set()
+    for t in (str, bytes, int, float, complex, bool, tuple, frozenset, range, list, dict, set,
+              _d.datetime, _d.date, _d.time, _d.timedelta, _d.timezone, _z.ZoneInfo,
+              type(_re.compile("x")), type(_re.match("x", "x"))):
+        names.update(n for n in dir(t) if not n.startswith("_"))
+    return names - MUTATORS
+
+
+PURE_METHODS = PURE_METHODS | _builtin_pure_methods()
 OK_DECORATORS = {"property", "staticmethod", "classmethod", "dataclass", "setter", "getter"}
 CLOCK_ATTRS = {"now", "today", "utcnow"}
 EFFECTS = ["writesGlobal", "mutatesParam", "hiddenState", "readsEnv", "readsClock", "io", "unknownCall"]
